@@ -57,7 +57,9 @@ CHECKS["C05"] = dict(
     "content type / bad body / closed connection on the k-th request) and every single fault at each guarded pipeline point "
     "(test construction, case entry, transport, check execution, stateful step, task producer, CLI handler; hit<=3) plus the "
     "consumer-race delays are enumerated per base configuration. Oracle: ground truth => failed scenario+phase, failure recorded "
-    "with the offending request, exit!=0; exit 0 => nothing went wrong and every operation is accounted for.",
+    "with the offending request, exit!=0; exit 0 => nothing went wrong and every operation is accounted for. Also: an error event "
+    "that names no operation (unresolvable path item) makes its phase errored, and a failure of a check on a request it derived itself "
+    "(ignored_auth) is filed under that request.",
     note="Single faults at the guarded points, not at arbitrary bytecodes; runs cut short by max_failures are judged on exit code and >=1 recorded failure.",
     technique="runtime monitoring: fault injection at guarded hook points + ground-truth (server log) vs report oracle",
     design_ref="DESIGN.md#c05",
@@ -68,7 +70,9 @@ CHECKS["C12"] = dict(
     text="Real engine runs; the API's request log (logical sequence, monotonic time, test-case id header) is joined with the "
     "recorders to count requests per phase/operation/scenario: fuzzing requests <= max_examples on unfailed operations, steps per "
     "stateful scenario <= step count, failed scenarios <= max_failures and later phases SKIP(failure limit reached) with no "
-    "requests, <= one request per worker after stop() (stop indices sampled, delays at case entry/transport), no duplicate "
+    "requests, <= one request per worker after stop() (stop indices sampled, delays at case entry/transport; for a document whose "
+    "links form a cycle also stops issued from the API's side while a request of a long sequence is served, step counts below "
+    "Hypothesis' default, runs with Hypothesis' phases left default), no duplicate "
     "request under unique_inputs where collisions are forced, no gross rate-limit breach with 1 and 4 workers.",
     note="Rate limit: only more than `limit` requests within half a period is a verdict. Stop: one in-flight request per worker is allowed.",
     technique="runtime monitoring: conservation/bound counters over the server-side request log joined with the event stream",
